@@ -58,6 +58,8 @@ def _r5_debt(ctx):
 def run(ctx):
     P = ctx.P
     cg = callgraph(P)
+    # "every refused query still gets an answer or a deliberate drop": a limiter task that waits for a lock it holds does neither
+    ctx.include("C07", rules=("R11",))
     _r5_debt(ctx)
     sr = "erbium::dns::DnsListenerHandler::should_ratelimit"
     if sr not in P.bodies:
@@ -269,6 +271,28 @@ def run(ctx):
                 a = [norm(x) for x in Tb.call_args(bb)]
                 okk = all(any(y[0] == "await" and y[1][0] == "call" and str(y[1][1]).endswith("CookieKeys::get_keys") for y in subterms(x)) for x in a[1:3]) and a[1] != a[2]
                 ctx.check(okk, "R3", "keys=current+previous", ctx.where(b, tm["sp"]), "")
+    # no key is ever set to a known value afterwards either: a key field is only ever written with the other key (rotation) or with
+    # fresh randomness — "the old key has lapsed, blank it" makes HMAC(zero key, ..) a valid server cookie
+    nset = 0
+    for ob in P.bodies.values():
+        if not ob.id.startswith("erbium::dns::") or "::test" in ob.id or ob.id.startswith("erbium::dns::cache") or ob.id.startswith("erbium::dns::dnspkt"):
+            continue
+        To = None
+        for bb, idx, st in ob.stmts():
+            pl = st["p"]
+            if "rv" not in st or not any(isinstance(x, str) and x in (".previous", ".current") for x in pl[1:]):
+                continue
+            To = To or terms(P, ob)
+            v = norm(To.rvalue(st["rv"], bb, idx))
+            # whose field?  the base must be (a reference to / a guard of) CookieKeys
+            if "CookieKeys" not in ob.local_ty(pl[0]) and not any("CookieKeys" in str(y[1]) for y in subterms(norm(To.place((pl[0],), bb, idx))) if y[0] == "call"):
+                continue
+            nset += 1
+            ctx.saw(ob)
+            known = v[0] == "const" or (v[0] == "call" and str(v[1]).rsplit("::", 1)[-1] == "default" and "Default" in str(v[1])) or \
+                (v[0] == "agg" and all(norm(x)[0] == "const" for _, x in v[3])) or v[0] == "repeat"
+            ctx.check(not known, "R3", "cookie-key-never-set-to-a-known-value:%s" % ob.id.split("::{")[0].rsplit("::", 1)[-1], ctx.where(ob, st["sp"]),
+                      "a cookie key is overwritten with %s: anyone can then compute a server cookie this server accepts" % show(v)[:80])
     # both keys are random secrets before the first cookie is checked
     nk = "erbium::dns::CookieKeys::new"
     rk = "erbium::dns::CookieKeys::rotate"
